@@ -1,6 +1,6 @@
 use crate::net::EventLoops;
 use libc::{fd_set, timeval};
-use std::ffi::{c_int, c_uint};
+use std::ffi::c_int;
 use std::time::Duration;
 
 trait SelectSyscall {
@@ -55,19 +55,21 @@ impl<I: SelectSyscall> SelectSyscall for NioSelectSyscall<I> {
         errorfds: *mut fd_set,
         timeout: *mut timeval,
     ) -> c_int {
-        let mut t = if timeout.is_null() {
-            c_uint::MAX
+        // the waits below are rounded up to the event loop's passes, so the time left
+        // is taken from the clock instead of being counted down nominally
+        let deadline = if timeout.is_null() {
+            u64::MAX
         } else {
             let (sec, usec) = unsafe { ((*timeout).tv_sec, (*timeout).tv_usec) };
-            if sec < 0 || usec < 0 {
-                crate::syscall::set_errno(libc::EINVAL);
-                return -1;
+            match (u64::try_from(sec), u64::try_from(usec)) {
+                (Ok(sec), Ok(usec)) => crate::common::get_timeout_time(
+                    Duration::from_secs(sec).saturating_add(Duration::from_micros(usec)),
+                ),
+                _ => {
+                    crate::syscall::set_errno(libc::EINVAL);
+                    return -1;
+                }
             }
-            // the loop below counts in milliseconds, round up so we never return early
-            c_uint::try_from(sec)
-                .unwrap_or(c_uint::MAX)
-                .saturating_mul(1_000)
-                .saturating_add(c_uint::try_from(usec.saturating_add(999) / 1_000).unwrap_or(c_uint::MAX))
         };
         let mut o = timeval {
             tv_sec: 0,
@@ -90,13 +92,13 @@ impl<I: SelectSyscall> SelectSyscall for NioSelectSyscall<I> {
             r = self
                 .inner
                 .select(fn_ptr, nfds, readfds, writefds, errorfds, &raw mut o);
-            if r != 0 || t == 0 {
+            let left = deadline.saturating_sub(crate::common::now());
+            if r != 0 || left == 0 {
                 break;
             }
-            _ = EventLoops::wait_event(Some(Duration::from_millis(u64::from(t.min(x)))));
-            if t != c_uint::MAX {
-                t = t.saturating_sub(x);
-            }
+            _ = EventLoops::wait_event(Some(
+                Duration::from_nanos(left).min(Duration::from_millis(x)),
+            ));
             if x < 16 {
                 x <<= 1;
             }
